@@ -6,7 +6,9 @@
     Model/BmtreeIndex.v); [Some _] = the Go code does not panic. *)
 From Coq Require Import ZArith List Bool Lia.
 From Low Require Import Lib.MachInt Lib.Bits Lib.BitSeq Lib.Lex Lib.Bytes Spec.Bmtree Spec.IndexToPathSpec
-  Model.BmtreePath Model.BmtreeIndex Model.BmtreeIndexToPath Proofs.IndexToPathProofs.
+  Spec.PathSpec Spec.IndexToPathWideSpec
+  Model.BmtreePath Model.BmtreePathStr Model.BmtreeIndex Model.BmtreeIndexToPath
+  Proofs.IndexToPathProofs Proofs.IndexToPathWideProofs.
 Import ListNotations.
 Open Scope Z_scope.
 
@@ -131,4 +133,63 @@ Example C05_shortcut_nonvacuous :
   node_at 30 1234567 = rev (bits 23 (1234567 / 2 ^ 8)) ++ node_at 7 119 /\
   (* the table row of height 3, index 11 is the node 101 *)
   idxToPath_at (Z.land (maskAt 3) 15) 11 = Some (enc 3 [true; false; true]).
+Proof. repeat apply conj; vm_compute; reflexivity. Qed.
+
+(** * widened: what IndexToPath is combined with *)
+
+(** the numeric order of the results is the order of the indices (index order
+    is pre-order), hence IndexToPath is injective *)
+Theorem C05w_order : forall (h : nat) (i j wi wj : Z), (h <= 30)%nat ->
+  0 <= i < 2 ^ (Z.of_nat h + 1) - 1 -> 0 <= j < 2 ^ (Z.of_nat h + 1) - 1 ->
+  IndexToPath (Z.of_nat h) i = Some wi -> IndexToPath (Z.of_nat h) j = Some wj ->
+  (wi ?= wj) = (i ?= j).
+Proof. exact IndexToPath_compare. Qed.
+Print Assumptions C05w_order.
+
+Theorem C05w_injective : forall (h : nat) (i j w : Z), (h <= 30)%nat ->
+  0 <= i < 2 ^ (Z.of_nat h + 1) - 1 -> 0 <= j < 2 ^ (Z.of_nat h + 1) - 1 ->
+  IndexToPath (Z.of_nat h) i = Some w -> IndexToPath (Z.of_nat h) j = Some w -> i = j.
+Proof. exact IndexToPath_injective. Qed.
+Print Assumptions C05w_injective.
+
+Theorem C05w_preorder_order : forall (h : nat) (i j : Z),
+  0 <= i < 2 ^ (Z.of_nat h + 1) - 1 -> 0 <= j < 2 ^ (Z.of_nat h + 1) - 1 ->
+  bits_cmp (node_at h i) (node_at h j) = (i ?= j).
+Proof. exact node_at_cmp. Qed.
+Print Assumptions C05w_preorder_order.
+
+(** PathLen / PathHeight / PathBits / PathMask / PathStr of the result describe the idx-th node *)
+Theorem C05w_fields : forall (h : nat) (idx : Z), (h <= 30)%nat -> 0 <= idx < 2 ^ (Z.of_nat h + 1) - 1 ->
+  exists w, IndexToPath (Z.of_nat h) idx = Some w /\
+    let q := node_at h idx in
+    PathLen w = Z.of_nat (length q) /\
+    (1 <= length q -> PathHeight w = Z.of_nat h)%nat /\
+    (q = [] -> PathHeight w = 0) /\
+    PathBits w = valL h q /\
+    PathMask w = Mask (Z.of_nat (length q)) * 2 ^ (Z.of_nat h - Z.of_nat (length q)) /\
+    PathStr w = node_str q.
+Proof. exact IndexToPath_fields. Qed.
+Print Assumptions C05w_fields.
+
+(** the functional specification the correspondence run evaluates for the
+    accessors op is the model's observation *)
+Theorem C05w_fields_spec : forall (h : nat) (idx : Z), (h <= 30)%nat -> 0 <= idx < 2 ^ (Z.of_nat h + 1) - 1 ->
+  exists w, IndexToPath (Z.of_nat h) idx = Some w /\
+    spec_fields h idx = (PathLen w, PathHeight w, PathBits w, PathMask w, PathStr w).
+Proof. exact spec_fields_model. Qed.
+Print Assumptions C05w_fields_spec.
+
+(** PathToIndexLoose on the full tree: the same index, and every level is stored *)
+Theorem C05w_loose_full : forall (h : nat) (q : node), (h <= 30)%nat -> (length q <= h)%nat ->
+  PathToIndexLoose (fullT h) (enc h q) = Some (full_rank h q, 1).
+Proof. exact PathToIndexLoose_full. Qed.
+Print Assumptions C05w_loose_full.
+
+Example C05w_nonvacuous :
+  IndexToPath 30 1234567 = Some 0x96b3a3fffffff /\ IndexToPath 30 1234568 = Some 0x96b3b3fffffff /\
+  (0x96b3a3fffffff ?= 0x96b3b3fffffff) = (1234567 ?= 1234568) /\
+  PathLen 0x96b3a3fffffff = 30 /\ PathHeight 0x96b3a3fffffff = 30 /\
+  PathStr 0x96b3a3fffffff = node_str (node_at 30 1234567) /\
+  PathToIndexLoose (fullT 30) (enc 30 [true; false; true]) = Some (1342177281, 1) /\
+  spec_loose_full 30 [true; false; true] = (1342177281, 1).
 Proof. repeat apply conj; vm_compute; reflexivity. Qed.
